@@ -48,10 +48,9 @@ def cache_cfgs():
         c.append(dict(withcnt(small, 3), OP=OPS[op]))
         c.append(dict(withcnt(tiny, 2), OP=OPS[op], **T))
         c.append(dict(withcnt(small, 2), OP=OPS[op], **T))
-        c.append(dict(withcnt(real, 2), OP=OPS[op], **T))
-        c.append(dict(withcnt(real, 4), OP=OPS[op], **T))
-        # three cached blocks in one request (scaled: 4 entries, direct threshold 3)
-        c.append(dict(withcnt(dict(small, E2FSPROGS_VERIF_WRITE_DIRECT_SIZE=3), 3), OP=OPS[op], **T))
+        # NOT registered: the multi-block CACHED step at the real geometry (count 2 and 4) and a 3-block cached
+        # step at a scaled geometry: no verdict in 1200 s / 8-10 GB on either back end (thorough run).  Those
+        # paths are decided compositionally by read_protocol / write_protocol (callees cut) + the count-1 step.
     for op in ("WRITE_BYTE", "FLUSH", "ZEROOUT", "DISCARD", "SET_BLKSIZE", "CLOSE", "CACHE_OFF"):
         c.append(dict(real, OP=OPS[op]))
     c.append(dict(withcnt(small, 1), OP=OPS["WRITE"], WITH_WRITETHROUGH=None))
